@@ -3,6 +3,10 @@
 import json
 props=[json.loads(l) for l in open('/verif/properties.jsonl')]
 claimed={
+ "C15": dict(level="model_checking",
+   text="One-step pointer agreement decided symbolically per kind: the real jsonpointer.GetForToken / JSONLookup code runs on a decoded symbolic document (all keyword combinations per path) for every keyword token and for symbolic extension / unknown-keyword names, and the result's encoding is compared by the solver with the corresponding member of the document's own JSON encoding. Multi-token pointers follow by induction over the pointer. Items extensions were repaired in /repo (ba07114); $schema is a known finding.",
+   note="Trusted: SSA executor, z3, M-json, M-reflect. Bounds as C01 (depth 1, names of one symbolic byte).",
+   design="4 C15", technique="bounded symbolic execution of go/ssa with symbolic member presence + SMT (z3), counterexample replay"),
  "C07": dict(level="model_checking",
    text="Bounded symbolic execution of every UnmarshalJSON/MarshalJSON pair on documents in which one member at a time takes a value of every JSON kind (and duplicates / case-folded names), all other members having symbolic presence: panics and bound overruns are detected by the executor, and byte equality of the first and second encodings is a solver obligation per path. The items:[] instability was repaired in /repo (0d4b6a2); scalar items are a known finding.",
    note="Trusted: SSA executor, z3, M-json. Bounds: one corrupted member at a time, depth 1.",
